@@ -46,10 +46,12 @@ def fit_data(d):
     return _FITX[d]
 
 
-def fit_model(h, use_none=False, temperature=0.1):
-    """A real Douglas model, trained for one iteration on small data of the right width (so every attribute exists)."""
+def fit_model(h, use_none=False, temperature=0.1, mask_kind="bool"):
+    """A real Douglas model, trained for one iteration on small data of the right width (so every attribute exists).
+    mask_kind: the same mask as a boolean array, as an array of 0/1 integers, of 0./1. floats or of Python bools (dtype object)."""
     from gemclus.tree import Douglas
-    mask = None if use_none else np.array([bool(b) for b in h["mask"]], dtype=bool)
+    dt = {"bool": bool, "int": np.int64, "uint8": np.uint8, "float": np.float64, "object": object}[mask_kind]
+    mask = None if use_none else np.array([bool(b) for b in h["mask"]], dtype=bool).astype(dt)
     model = Douglas(n_clusters=n_clusters_for(h), n_cuts=h["ncuts"], feature_mask=mask, temperature=temperature,
                     max_iter=1, random_state=0)
     model.fit(fit_data(h["d"]))
